@@ -9,7 +9,7 @@ import vlib
 
 PID = "C12"
 THEOREMS = [
-    "c12_latest_resolves", "c12_latest_text", "c12_latest_resolves_nosub_partial", "c12_all_under_rundir",
+    "c12_latest_resolves", "c12_latest_text", "c12_latest_always_replaced", "c12_latest_resolves_nosub_partial", "c12_all_under_rundir",
     "c12_artifacts_survive_iff", "c12_rundir_erased_iff", "c12_upload_implies_clear",
     "c12_rundir_erased_general", "c12_foul_flag_is_exit_status", "c12_range_contains",
 ]
@@ -44,15 +44,24 @@ CODES = {
 
 def play_signature(p, code):
     sig, what = CODES.get(code, ("other", "oracle code %d" % code))
-    if code == 2 and not os.path.isabs(p["DataDir"]) and p["DataDir"] != ".":
+    if code == 2 and p.get("Prior"):
+        sig, what = "latest-not-refreshed-after-earlier-run", (
+            "after an earlier run into the same output directory (%s), <output-dir>/latest does not resolve to the new run directory" % p["Prior"])
+    elif code == 2 and not os.path.isabs(p["DataDir"]) and p["DataDir"] != ".":
         sig = "relative-output-dir-dangling-latest"
+    if code == 9 and p.get("Repeat") and p.get("Fouled") and p.get("FoulKind") == "early":
+        sig = "plot-script-loads-missing-lastplot"
     if code == 1 and p.get("Upload") and p.get("BlankDir"):
         sig = "upload-command-unquoted-output-dir"
     return sig, what
 
 
 def play_replay(p):
-    return ("cd <empty dir>/cwd; write the configuration to play.cfg; PATH=<dir with a fake scp>:$PATH HOME=<empty> TMPDIR=<empty> "
+    prior = ""
+    if p.get("Prior"):
+        prior = "first: shakespeare -q --disable-plots %s-o %s prior.cfg (the same configuration made clean)%s; sleep 1.1; then: " % (
+            "--clear " if p["Prior"] == "cleared" else "", p["DataDir"], "; rm -r the run directory" if p["Prior"] == "deleted" else "")
+    return (prior + "cd <empty dir>/cwd; write the configuration to play.cfg; PATH=<dir with a fake scp>:$PATH HOME=<empty> TMPDIR=<empty> "
             "shakespeare %s ; then inspect %s/<run id>, %s/latest, result.js, csv/*, plots/*.gp" %
             (" ".join("'%s'" % a if " " in a else a for a in p["Args"]), p["DataDir"], p["DataDir"]))
 
@@ -95,7 +104,7 @@ def run(tier, seed):
     res.coverage.update({
         "evaluations": n_eval,
         "distinct_nontrivial": summary["distinct_nontrivial"],
-        "rule": "plays: quick = a greedy 3-way covering array of {-k} x {--clear} x {--disable-plots} x {-q} x {fouled (by an auditor or by a failing action), clean} x {'.', out, a/b/out, absolute (with a blank)} x {repeat section, none} (every triple of factor values occurs; the seed changes the rows), thorough = all 256; plus 4 --upload-url plays with a fake scp and one probing an output directory with a blank. Spotlights emit an instant far in the future and (3 of 4) one in the past, so MinTime < 0 < 1 < MaxTime. links: the real prepareDirs for 13 forms of output directory (absolute, '.', relative, nested, './x', 'x/', 'a/../x', '../w2/x', 'a//b', with a blank, ...) x run ids (some without). ranges: lists of 0-8 instants (multiples of 1/1024 s in [-5 s, 12 s]) through the real assemble. paths: generated strings of up to 5 components from {a, b, .., ., '', 'c d', x.y, out, ...}. distinct_nontrivial = distinct plays (by factor values) + link forms + ranges of >= 2 instants.",
+        "rule": "plays: quick = a greedy 3-way covering array of {-k} x {--clear} x {--disable-plots} x {-q} x {fouled (by an auditor or by a failing action), clean} x {'.', out, a/b/out, absolute (with a blank)} x {repeat section, none} (every triple of factor values occurs; the seed changes the rows), thorough = all 256; plus 4 --upload-url plays with a fake scp, one probing an output directory with a blank, 6 plays (24 thorough) that follow an earlier run into the same output directory one second before (erased by --clear, deleted by hand, or kept) and 2 (8) whose repeat section is never reached because a failing action fouls act 1 (plots on). Fouls are by an auditor, by a failing action in the last (repeated) act, or by one in act 1. Spotlights emit an instant far in the future and (3 of 4) one in the past, so MinTime < 0 < 1 < MaxTime. links: the real prepareDirs for 13 forms of output directory (absolute, '.', relative, nested, './x', 'x/', 'a/../x', '../w2/x', 'a//b', with a blank, ...) x run ids (some without). ranges: lists of 0-8 instants (multiples of 1/1024 s in [-5 s, 12 s]) through the real assemble. paths: generated strings of up to 5 components from {a, b, .., ., '', 'c d', x.y, out, ...}. distinct_nontrivial = distinct plays (by factor values) + link forms + ranges of >= 2 instants.",
         "samples": summary["samples"],
         "distribution": {k: summary[k] for k in ("clean", "join", "abs", "link", "range", "plays", "play_distribution", "link_hook_errors")},
         "traces_validated_against_impl": summary["plays"],
@@ -117,7 +126,7 @@ def run(tier, seed):
         if code == 1:
             detail_txt = ": " + ", ".join(p["Stray"][:4])
         elif code == 2:
-            detail_txt = ": latest -> %r" % p["LatestText"]
+            detail_txt = ": latest -> %r (before the run: %r), run id %s" % (p["LatestText"], p.get("AliasBefore"), p["RunID"])
         elif code == 8:
             detail_txt = ": " + ", ".join(p["MissingArtifacts"][:4])
         elif code == 9:
